@@ -112,7 +112,7 @@ Section WithBody.
         Ok (fst ps :: fst r, snd r)
     end.
 
-  Definition dump_entries (sh : list nat) (mask : list bool) (key : list nat) (v : val) : result sto :=
+  Definition dump_items (sh : list nat) (mask : list bool) (key : list nat) (v : val) : result sto :=
     sto_dump sh mask key v [].
 
   (* _update_array(in_post_process = negb worker): dump the outputs whose storage has
@@ -123,7 +123,7 @@ Section WithBody.
     | [] => Ok []
     | sel =>
         do key <- output_key ms (ext_of mask sh) i;
-        mapM (fun ov => do l <- dump_entries sh mask key (snd ov);
+        mapM (fun ov => do l <- dump_items sh mask key (snd ov);
                         Ok {| dv_out := fst ov; dv_key := key; dv_entries := l; dv_worker := worker |}) sel
     end.
 
